@@ -9,6 +9,12 @@ def validCV : Nat → Nat → Prop
   | 0, cv => cv = 0
   | w+1, cv => cv % 8 ≤ 4 ∧ validCV w (cv / 8)
 
+def validCV.dec : ∀ w cv, Decidable (validCV w cv)
+  | 0, cv => inferInstanceAs (Decidable (cv = 0))
+  | w+1, cv => @instDecidableAnd _ _ _ (validCV.dec w (cv / 8))
+
+instance (w cv : Nat) : Decidable (validCV w cv) := validCV.dec w cv
+
 def digitSum : Nat → Nat → Nat
   | 0, _ => 0
   | w+1, cv => cv % 8 + digitSum w (cv / 8)
